@@ -88,7 +88,7 @@ def plain_frag(name_):
         d = named(INT, name_ + '.umi_hamming_distance')
         r = named(INT, name_ + '.assignment_radius')
         s, e_ = named(INT, name_ + '.start'), named(INT, name_ + '.end')
-        eng.assume(z3.And(d.z >= 0, r.z >= 0, s.z <= e_.z))
+        eng.assume(z3.And(d.z >= 0, r.z >= 0, s.z >= 0, s.z <= e_.z))      # reference coordinates: 0-based, not negative
         return Obj('Fragment', {'sample': named(STR, name_ + '.sample'), 'strand': named(BOOL, name_ + '.strand'),
                                 'span': (named(STR, name_ + '.contig'), s, e_), 'assignment_radius': r,
                                 'umi': named(STR, name_ + '.umi'), 'umi_hamming_distance': d, 'max_fragment_size': None},
@@ -398,8 +398,9 @@ def plain_eq_replay(inputs, clause):
     a, b = inputs['self']['attrs'], inputs['other']['attrs']
     header = pysam.AlignmentHeader.from_dict({'HD': {'VN': '1.6'}, 'SQ': [{'SN': 'chr1', 'LN': 10 ** 8}, {'SN': 'chr2', 'LN': 10 ** 8}]})
     same_contig = a['span'][0] == b['span'][0]
-    base = 10 ** 6
-    shift = min(a['span'][1], b['span'][1], 0)
+    # the model's coordinates as they are (position 0 included); only coordinates beyond the scratch contig are shifted down
+    top = max(int(a['span'][1]), int(b['span'][1]))
+    base, shift = (0, 0) if top < 9 * 10 ** 7 else (10 ** 6, min(int(a['span'][1]), int(b['span'][1])))
 
     def seg(x, contig, name):
         s = pysam.AlignedSegment(header)
@@ -621,3 +622,199 @@ def mol_site_unit(cls, relpath):
 
 
 UNITS += [mol_site_unit('NlaIIIMolecule', FMN), mol_site_unit('CHICMolecule', FMC)]
+
+
+# ------------------------------------------------------------------------------ the tagger's method table: every molecule class
+# "In the tagged output every molecule has exactly one fragment that is not flagged duplicate ... af, TF, RC agree": the rank /
+# duplicate writer is Molecule.write_tags (contract above).  Every molecule class the tagger can select (extracted from the
+# method table of bamtagmultiome.py on every run) must run it when its own write_tags is called, and every class the tagger
+# pairs with CHICFragment must keep the molecule's site (CHICFragment.__eq__ compares against it) through _add_fragment.
+import ast as _ast      # noqa: E402
+import glob as _glob      # noqa: E402
+import os as _os      # noqa: E402
+from pyvc.loader import REPO as _REPO      # noqa: E402
+
+FBT = 'singlecellmultiomics/universalBamTagger/bamtagmultiome.py'
+
+
+def method_table():
+    """[(method name(s), molecule class, fragment class)] from the `args.method == ...` chain of the tagger"""
+    tree = _ast.parse(open(_os.path.join(_REPO, FBT)).read())
+    out = []
+    for node in _ast.walk(tree):
+        if not isinstance(node, _ast.If):
+            continue
+        tests = [node.test] if isinstance(node.test, _ast.Compare) else (
+            list(node.test.values) if isinstance(node.test, _ast.BoolOp) and isinstance(node.test.op, _ast.Or) else [])
+        names = [t.comparators[0].value for t in tests
+                 if isinstance(t, _ast.Compare) and _ast.unparse(t.left) == 'args.method' and isinstance(t.ops[0], _ast.Eq)
+                 and isinstance(t.comparators[0], _ast.Constant)]
+        if not names:
+            continue
+        mol = frag = None
+        for st in node.body:
+            if isinstance(st, _ast.Assign) and len(st.targets) == 1 and isinstance(st.targets[0], _ast.Name) and \
+                    isinstance(st.value, _ast.Attribute):
+                if st.targets[0].id == 'molecule_class':
+                    mol = st.value.attr
+                elif st.targets[0].id == 'fragment_class':
+                    frag = st.value.attr
+        if mol and frag:
+            out.append((tuple(names), mol, frag))
+    return out
+
+
+def class_file(package, cls):
+    for p in sorted(_glob.glob(_os.path.join(_REPO, 'singlecellmultiomics', package, '*.py'))):
+        try:
+            t = _ast.parse(open(p).read())
+        except SyntaxError:
+            continue
+        if any(isinstance(n, _ast.ClassDef) and n.name == cls for n in t.body):
+            return _os.path.relpath(p, _REPO)
+    return None
+
+
+def mt_setup(eng):
+    eng.ghost.clear()
+    eng.ghost.update({'base_writes': 0, 'base_adds': []})
+    eng.spec_env['GHOST'] = eng.ghost
+    QM = 'singlecellmultiomics.molecule.molecule.Molecule.'
+
+    def base_write(e, f, a, k, n):
+        e.ghost['base_writes'] += 1
+    eng.loader.call_hooks[QM + 'write_tags'] = base_write
+    eng.loader.call_hooks[QM + '_add_fragment'] = lambda e, f, a, k, n: e.ghost['base_adds'].append(a[-1])
+    eng.loader.call_hooks[QM + 'set_meta'] = lambda e, f, a, k, n: None
+    eng.loader.call_hooks[QM + 'get_barcode_sequences'] = lambda e, f, a, k, n: {'ACGTACGT'}
+    eng.loader.call_hooks[QM + 'get_cut_site'] = lambda e, f, a, k, n: ('chr1', named(INT, 'cut_site'), named(BOOL, 'cut_strand'))
+    eng.loader.call_hooks['singlecellmultiomics.molecule.nlaIII.NlaIIIMolecule.get_undigested_site_count'] = \
+        lambda e, f, a, k, n: named(INT, 'undigested')
+
+    def upstream(e, f, a, k, n):
+        if e.branch(fresh(BOOL, 'read1_unmapped').z):
+            raise PyRaise('ValueError', 'no read 1')
+        return named(STR, 'upstream_site')
+    eng.loader.call_hooks['singlecellmultiomics.molecule.chic.CHICNLAMolecule.get_upstream_site'] = upstream
+    stubs.STUBS['FragStub'] = {'methods': {'set_meta': lambda e, o, t, v: o.attrs['meta'].__setitem__(t, v),
+                                           'write_tags': lambda e, o: None}, 'props': {}, 'setters': {}}
+
+
+def mt_molecule(cls, relpath, n_frags=2):
+    def mk(eng, name):
+        frags = [Obj('FragStub', {'meta': {}}) for _ in range(n_frags)]
+        r = named(INT, 'radius')
+        eng.assume(r.z >= 0)
+        attrs = {'fragments': frags, 'umi': 'ACG', 'exons': set(), 'introns': set(), 'genes': {'geneA'}, 'junctions': set(),
+                 'is_spliced': None, 'exon_hit_gene_names': set(), 'reference': None, 'assignment_radius': r,
+                 'site_location': ['chr1', named(INT, 'mol_site')], 'strand': named(BOOL, 'mol_strand'), 'chromosome': 'chr1'}
+        return Obj(cls, attrs, info=eng.loader.classref(relpath, cls))
+    return mk
+
+
+def writes_unit(methods, cls, relpath):
+    return Contract(
+        PROP, relpath + '::' + cls, name='%s.write_tags[rank/duplicate writer runs; -method %s]' % (cls, ','.join(methods)),
+        harness='''
+MOL.write_tags()
+return MOL
+''',
+        params={'MOL': mt_molecule(cls, relpath)}, setup=mt_setup,
+        ensures={'the_rank_and_duplicate_writer_of_Molecule_has_run': 'GHOST["base_writes"] >= 1'},
+        raises={},
+        assumptions=['Molecule.write_tags itself: its own contract above; set_meta / get_cut_site / get_barcode_sequences and the '
+                     'fragments through stubs; class and method names from the method table of bamtagmultiome.py'],
+    )
+
+
+def keeps_site_unit(methods, cls, relpath):
+    return Contract(
+        PROP, relpath + '::' + cls, name='%s._add_fragment[keeps the site CHICFragment.__eq__ compares; -method %s]' % (cls, ','.join(methods)),
+        harness='''
+MOL._add_fragment(FRAGMENT)
+return MOL
+''',
+        params={'MOL': site_molecule(cls, relpath, False), 'FRAGMENT': site_fragment(True)},
+        setup=mt_setup,
+        ensures={
+            'the_first_fragment_gives_the_molecule_its_site':
+                'result.site_location is not None and result.site_location[0] == FRAGMENT.site_location[0] and '
+                'result.site_location[1] == FRAGMENT.site_location[1]',
+            'fragment_is_added_once_through_the_base_class': 'GHOST["base_adds"] == [FRAGMENT]',
+        },
+        raises={},
+        assumptions=['a molecule without site yet (as its constructor leaves it) and a fragment with a site'],
+    )
+
+
+def method_table_units():
+    units, seen_w, seen_s = [], set(), set()
+    for methods, mol, frag in method_table():
+        rel = class_file('molecule', mol)
+        if rel is None:
+            continue
+        if mol not in seen_w and mol != 'Molecule':
+            seen_w.add(mol)
+            units.append(writes_unit(methods, mol, rel))
+        if frag == 'CHICFragment' and mol not in seen_s:
+            seen_s.add(mol)
+            units.append(keeps_site_unit(methods, mol, rel))
+    return units
+
+
+def method_table_replay(cls, frag_cls):
+    def replay(inputs, clause):
+        """three real duplicate fragments (same cell, site, strand, UMI) through the real molecule class: they must form one
+        molecule whose write_tags leaves exactly one fragment unflagged and writes RC 0,1,2 / af 3"""
+        import pysam
+        from pyvc import bamreplay as B
+        mm = __import__('singlecellmultiomics.molecule', fromlist=['x'])
+        fm = __import__('singlecellmultiomics.fragment', fromlist=['x'])
+        Mol, Frag = getattr(mm, cls), getattr(fm, frag_cls)
+        kwargs = {'CHICMolecule': {}, 'NlaIIIMolecule': {}, 'CHICNLAMolecule': {'reference': None}}.get(cls)
+        if kwargs is None:
+            return {'status': 'no-input', 'note': 'no scratch construction for %s (needs features / TAPS objects)' % cls}
+        header = pysam.AlignmentHeader.from_dict({'HD': {'VN': '1.6'}, 'SQ': [{'SN': 'ctgA', 'LN': 100000}]})
+
+        class Ref:
+            def fetch(self, c, s_, e_):
+                return 'A' * (e_ - s_)
+        if 'reference' in kwargs:
+            kwargs['reference'] = Ref()
+
+        def read(name):
+            return B.make_segment(header, {'query_sequence': 'CATG' + 'A' * 26, 'cigartuples': [(0, 30)], 'reference_start': 1000,
+                                           'reference_end': 1030, 'mapping_quality': 60, 'is_read1': True, 'is_duplicate': True,
+                                           'tags': {'SM': 'cell1', 'RX': 'ACG', 'MX': 'x', 'lh': 'TA'}}, 'ctgA', name)
+        model_radius = ((inputs.get('MOL') or {}).get('attrs') or {}).get('assignment_radius')
+        radii = sorted({0, 5} | ({int(model_radius)} if isinstance(model_radius, int) and 0 <= model_radius < 1000 else set()))
+        runs, bad = {}, False
+        for radius in radii:
+            fk = {'assignment_radius': radius} if 'CHIC' in frag_cls else {}
+            frags = [Frag([read('q%d' % i), None], umi_hamming_distance=0, **fk) for i in range(3)]
+            m = Mol(frags[0], **kwargs)
+            added = [bool(m.add_fragment(f)) for f in frags[1:]]
+            m.write_tags()
+            flags = [[r.is_duplicate for r in f if r is not None] for f in m]
+            tags = [[(dict(r.get_tags()).get('RC'), dict(r.get_tags()).get('af')) for r in f if r is not None] for f in m]
+            runs['radius %d' % radius] = {'duplicates_accepted': added, 'is_duplicate': flags, 'RC_af': [[list(t) for t in x] for x in tags]}
+            if added != [True, True] or flags != [[False], [True], [True]] or tags != [[(0, 3)], [(1, 3)], [(2, 3)]]:
+                bad = True
+        obs = {'outcome': 'return', 'value': runs}
+        if bad:
+            return {'status': 'confirmed', 'observed': obs, 'failed': [{'clause': clause}]}
+        return {'status': 'not-reproduced', 'observed': obs}
+    return replay
+
+
+def method_table_units_with_replay():
+    units = method_table_units()
+    frag_of = {mol: frag for _, mol, frag in method_table()}
+    for u in units:
+        cls = u.name.split('.')[0]
+        u.replay = method_table_replay(cls, frag_of.get(cls, 'Fragment'))
+    return units
+
+
+MT_UNITS = method_table_units_with_replay()
+UNITS += MT_UNITS
